@@ -183,7 +183,7 @@ func TestC18Sites(t *testing.T) {
 					}
 					totalDebt := vb.AmountOut.Add(vb.InterestAccumulated)
 					bt := vb.BlockTime.Unix()
-					if vb.BlockHeight == 0 {
+					if vb.BlockHeight == 0 || ep.BlockTime.Unix() > bt {
 						bt = ep.BlockTime.Unix()
 					}
 					var direct sdk.Dec = z
@@ -207,7 +207,7 @@ func TestC18Sites(t *testing.T) {
 				} else {
 					// the caller (WasmUpdatePairsVault) passes the pair's old stability fee and block time
 					bt := vb.BlockTime.Unix()
-					if vb.BlockHeight == 0 {
+					if vb.BlockHeight == 0 || ep.BlockTime.Unix() > bt {
 						bt = ep.BlockTime.Unix()
 					}
 					var direct sdk.Dec = z
